@@ -197,7 +197,7 @@ func evalQuery(w *world, rep *vevid.Report, c Case, m *model, q Query, metric st
 			Detail: fmt.Sprintf("%s\nhistory: %s\nquery: %s", detail, c, q.sql("M")), Replay: rc})
 	}
 	if qerr != nil {
-		if msg := qerr.Error(); strings.Contains(msg, "timeout") || strings.Contains(msg, "no response from leaves") || strings.Contains(msg, "deadline exceeded") {
+		if isTimeout(qerr) {
 			w.timeouts++
 			viol("query-timeout", ftfn, fmt.Sprintf("query did not complete within %v: %v", vbox.QueryTimeout, qerr))
 			rep.Outcome("timeout")
